@@ -100,8 +100,7 @@ class ApproxInterp(ArrInterp):
             a0 = args[0] if args else None
             if getattr(r, "lib_as_cc", False):
                 # dispatch view: which library labels which side (wherever the call sits)
-                be = "cc3d" if name.startswith("cc3d.") else "scipy" if name.startswith("scipy.") else name
-                r.cca_calls.append((a0, be, node))
+                r.cca_calls.append((a0, "lib:" + name, node))
                 side = a0.side if isinstance(a0, AArr) else "?"
                 return (AArr("CC_" + side, True), Sym("N_" + side))
             return (Tagged("libout:" + name, [a0]), Sym("N"))
@@ -110,6 +109,8 @@ class ApproxInterp(ArrInterp):
         return super().external_call(name, args, kwargs, node)
 
     def call_builtin(self, name, args, kwargs, node):
+        if name == "int" and len(args) == 1 and isinstance(args[0], Sym) and args[0].name.startswith("N_"):
+            return args[0]  # a component count as a python int is that count
         if name in ("int", "float") and len(args) == 1 and isinstance(args[0], Tagged) and args[0].name in ("max", "min", "amax"):
             return args[0]  # a numeric conversion of a maximum is that maximum
         if name in ("max", "min") and args and not all(isinstance(a, (int, float)) for a in args):
@@ -140,9 +141,22 @@ def check_dispatch(ctx: Ctx):
     cc = prog.func("_functionals:_connected_components")
     fit = prog.func("utils.numpy_utils:_get_smallest_fitting_uint")
     ucls = prog.cls("utils.processing_pair:UnmatchedInstancePair")
-    members = [m for m in be_cls.class_assigns()]
-    if sorted(members) != ["cc3d", "scipy"]:
-        ctx.undecided("R05.1", None, be_cls.node, "CCABackend", f"backend enum members {members} differ from the confirmed (cc3d, scipy)")
+    members = [m for m, v in be_cls.class_assigns().items() if not isinstance(v, (ast.FunctionDef, ast.Lambda))]
+    if not {"cc3d", "scipy"} <= set(members):
+        ctx.undecided("R05.1", None, be_cls.node, "CCABackend", f"backend enum members {members} lack the two the property names (cc3d, scipy)")
+    # which library labels the components for which member: read off _connected_components itself
+    lib_of = {}
+    for mname in members:
+        try:
+            arr0 = AArr("PRED", False)
+            it0 = ApproxInterp(prog, cc, {cc.call_params[0].name: arr0, cc.call_params[1].name: EnumSym(be_cls, mname)})
+            it0.root.lib_as_cc = True
+            o0 = it0.run()
+            libs = {c[1] for c in it0.root.cca_calls}
+            if o0.kind == "return" and not o0.decisions and len(libs) == 1:
+                lib_of[mname] = libs.pop()
+        except (Undecided, RaiseSignal):
+            pass
     rows = 0
     for given in [None] + members:
         for ndim in (1, 2, 3, 4):
@@ -188,7 +202,7 @@ def check_dispatch(ctx: Ctx):
                 ctx.decide("R05.1", f, out.node, construct + ":sides", "connected components are computed exactly for the non-empty sides", sides == want_sides, {"got": sides})
                 bes = {c[1] if isinstance(c[1], str) else repr(c[1]) for c in calls}
                 if calls:
-                    ctx.decide("R05.1", f, out.node, construct + ":backend", f"backend used is {want_be} for both sides", bes == {want_be}, {"got": sorted(bes)})
+                    ctx.decide("R05.1", f, out.node, construct + ":backend", f"backend used is {want_be} for both sides", (bes == {lib_of[want_be]}) if want_be in lib_of else None, {"got": sorted(bes), "library_of_backend": lib_of.get(want_be)})
                 if len(it.root.pair_calls) != 1:
                     ctx.undecided("R05.3", f, out.node, construct, "result pair construction not observed")
                     continue
@@ -242,8 +256,9 @@ def check_dispatch(ctx: Ctx):
                 ctx.undecided("R05.1", f, f.node, construct, "second call on the same object not evaluable")
                 continue
             hist += 1
-            want = [given if given else ("cc3d" if nd2 >= 3 else "scipy")]
-            ctx.decide("R05.1", f, f.node, construct, f"the second call on the same object uses backend {want[0]} (as a fresh object would)", seen[1] == want, {"first_call": seen[0], "second_call": seen[1]})
+            wb = given if given else ("cc3d" if nd2 >= 3 else "scipy")
+            want = [lib_of.get(wb)]
+            ctx.decide("R05.1", f, f.node, construct, f"the second call on the same object uses backend {wb} (as a fresh object would)", (seen[1] == want) if want[0] else None, {"first_call": seen[0], "second_call": seen[1]})
     if hist < 12:
         ctx.undecided("R05.1.floor", f, f.node, "floor:R05.1:history", f"{hist} two-call histories evaluated, confirmed floor is 12")
 
